@@ -1690,6 +1690,17 @@ var leaves = []leafT{
 	{"sep-taken@2", func(k *keys) []byte { return cat([]byte{0x51, 0x63, 0xab, 0x68}, pushData(k.xA), []byte{0xac}) }, 2},
 }
 
+// OP_CODESEPARATOR at opcode positions on both sides of the 8- and 16-bit boundaries (tapscript
+// has no script-size or opcode-count limit; the position committed is a 32-bit opcode index)
+func init() {
+	for _, n := range []int{255, 256, 65535, 65536, 70000} {
+		n := n
+		leaves = append(leaves, leafT{fmt.Sprintf("sep@%d", n), func(k *keys) []byte {
+			return cat(bytes.Repeat([]byte{0x61}, n), []byte{0xab}, pushData(k.xA), []byte{0xac})
+		}, uint32(n)})
+	}
+}
+
 func genScriptPath(k *keys, lf leafT, sh [2]int, idx int, ht byte, ax []byte) (l []*vcase) {
 	return genScriptPathDepth(k, lf, sh, idx, ht, ax, 0)
 }
